@@ -17,9 +17,10 @@ vars == <<prog, n, psi, ev, gm>>
 ViewNoGm == <<prog, n, psi, ev>>
 
 K0 == <<0, 0, 0>>
-GNames == <<"X", "H", "RY", "S", "CNOT", "CRY">>           \* CRY = RY(pi/2).controlled(1): parametric, two qubits, not symmetric
+GNames == <<"X", "H", "RY", "S", "CNOT", "CRY", "CCX">>    \* CRY = RY(pi/2).controlled(1): parametric, two qubits, not symmetric; CCX = X.controlled(2)
 GK(name) == IF name \in {"RY", "CRY"} THEN <<1, 0, 0>> ELSE K0
-GMTab == TLCEval([i \in 1..Len(GNames) |-> IF GNames[i] = "CRY" THEN MBlockId(2, GateAt("RY", <<1, 0, 0>>)) ELSE GateAt(GNames[i], GK(GNames[i]))])
+GMTab == TLCEval([i \in 1..Len(GNames) |-> IF GNames[i] = "CRY" THEN MBlockId(2, GateAt("RY", <<1, 0, 0>>))
+                                           ELSE IF GNames[i] = "CCX" THEN MBlockId(6, GateAt("X", K0)) ELSE GateAt(GNames[i], GK(GNames[i]))])
 GIdx(name) == CHOOSE i \in 1..Len(GNames) : GNames[i] = name
 GM(name) == gm[GIdx(name)]
 Step(name, qs) == [name |-> name, k |-> GK(name), qs |-> qs]
@@ -33,6 +34,8 @@ Next == \/ /\ Mode = "basis" /\ \E q \in 0..(n - 1) : q > LastX /\ AppendG("X", 
         \/ /\ Mode = "super" /\ Len(prog) < MaxLen
            /\ \/ \E name \in {"X", "H", "RY", "S"} : \E q \in 0..(n - 1) : AppendG(name, <<q>>)
               \/ \E name \in {"CNOT", "CRY"} : \E q \in 0..(n - 1) : \E r \in 0..(n - 1) : q # r /\ AppendG(name, <<q, r>>)
+              \* a three-qubit gate on EVERY ordered triple (the cyclic ones are the permutations that are not involutions)
+              \/ \E q \in 0..(n - 1) : \E r \in 0..(n - 1) : \E t \in 0..(n - 1) : q # r /\ q # t /\ r # t /\ AppendG("CCX", <<q, r, t>>)
 
 \* ---- views, by the documented conventions ---------------------------------------------------------------
 Prob(i) == CAbsSq(psi[i + 1])
